@@ -516,6 +516,27 @@ func ruleTwirpTable(r *Run) {
 
 // evalCodeTable evaluates v = [strings.ToLower|ToUpper](T[code]) for a constant table T (map or array, in any loaded package) into code -> string.
 func (p *Program) evalCodeTable(v ssa.Value) (map[int64]string, string, error) {
+	return p.evalCodeTableCtx(v, nil, 0)
+}
+
+// evalCodeTableCtx: ctx is the chain of helper calls entered so far, so that a table handed down as an argument
+// (lookupCode(codeToTwirp[:], c, "unknown")) resolves to the table of this very call chain.
+func (p *Program) evalCodeTableCtx(v ssa.Value, ctx *originCtx, depth int) (map[int64]string, string, error) {
+	if depth > 5 {
+		return nil, "", fmt.Errorf("helper chain too deep at %s", v.Name())
+	}
+	isConstHere := func(x ssa.Value) bool {
+		os := p.originsCtx(x, ctx, originOpts{})
+		if len(os) == 0 {
+			return false
+		}
+		for _, o := range os {
+			if _, ok := o.v.(*ssa.Const); !ok {
+				return false
+			}
+		}
+		return true
+	}
 	var post []string
 	for {
 		c, ok := v.(*ssa.Call)
@@ -543,6 +564,7 @@ func (p *Program) evalCodeTable(v ssa.Value) (map[int64]string, string, error) {
 				img := map[int64]string{}
 				how := ""
 				var firstErr error
+				inner := &originCtx{site: c, up: ctx}
 				eachInstr(fn, func(in ssa.Instruction) {
 					rt, ok := in.(*ssa.Return)
 					if !ok || len(rt.Results) != 1 {
@@ -551,7 +573,21 @@ func (p *Program) evalCodeTable(v ssa.Value) (map[int64]string, string, error) {
 					if _, isConst := rt.Results[0].(*ssa.Const); isConst {
 						return
 					}
-					m, h, err := p.evalCodeTable(rt.Results[0])
+					if _, isPar := rt.Results[0].(*ssa.Parameter); isPar {
+						// the fallback handed down by the caller (lookupCode(table, c, "unknown"))
+						if os := p.originsCtx(rt.Results[0], inner, originOpts{}); len(os) > 0 {
+							allConst := true
+							for _, o := range os {
+								if _, ok := o.v.(*ssa.Const); !ok {
+									allConst = false
+								}
+							}
+							if allConst {
+								return
+							}
+						}
+					}
+					m, h, err := p.evalCodeTableCtx(rt.Results[0], inner, depth+1)
 					if err != nil {
 						firstErr = err
 						return
@@ -578,21 +614,32 @@ func (p *Program) evalCodeTable(v ssa.Value) (map[int64]string, string, error) {
 		}
 		break
 	}
+	// the table a lookup reads: a package-level variable, directly or handed down through helper parameters
+	tableOf := func(x ssa.Value) *ssa.Global {
+		var g *ssa.Global
+		for _, o := range p.originsCtx(x, ctx, originOpts{throughSlice: true, throughConvert: true}) {
+			var og *ssa.Global
+			switch b := o.v.(type) {
+			case *ssa.Global:
+				og = b
+			case *ssa.UnOp:
+				og, _ = b.X.(*ssa.Global)
+			}
+			if og == nil || (g != nil && g != og) {
+				return nil
+			}
+			g = og
+		}
+		return g
+	}
 	var g *ssa.Global
 	switch x := v.(type) {
 	case *ssa.Lookup:
-		if u, ok := x.X.(*ssa.UnOp); ok && u.Op == token.MUL {
-			g, _ = u.X.(*ssa.Global)
-		}
+		g = tableOf(x.X)
 	case *ssa.UnOp:
 		if x.Op == token.MUL {
 			if ia, ok := x.X.(*ssa.IndexAddr); ok {
-				switch b := ia.X.(type) {
-				case *ssa.Global:
-					g = b
-				case *ssa.UnOp:
-					g, _ = b.X.(*ssa.Global)
-				}
+				g = tableOf(ia.X)
 			}
 		}
 	case *ssa.Phi:
@@ -600,10 +647,10 @@ func (p *Program) evalCodeTable(v ssa.Value) (map[int64]string, string, error) {
 		img := map[int64]string{}
 		how := ""
 		for _, e := range x.Edges {
-			if _, isConst := e.(*ssa.Const); isConst {
+			if isConstHere(e) {
 				continue
 			}
-			m, h, err := p.evalCodeTable(e)
+			m, h, err := p.evalCodeTableCtx(e, ctx, depth+1)
 			if err != nil {
 				return nil, "", err
 			}
